@@ -266,6 +266,8 @@ var overlays = []struct {
 	{10 * 1000, 6},          // 10s storage, 1m query
 	{5 * 60 * 1000, 1},      // 5m / 5m
 	{3600 * 1000, 24 * 365}, // 1h storage, 1y query (Interval renders as "1y")
+	{3600 * 1000, 24 * 360}, // 1h storage, 360d query (12 months of 30 days: not a year)
+	{24 * 3600 * 1000, 720}, // 1d storage, 720d query
 }
 
 // runSQL evaluates every oracle clause on one statement text.
